@@ -1,9 +1,9 @@
 CONSTANTS
   Dev = {}
   Conns = {1}
-  MaxReq = 3
+  MaxReq = 2
   QCaps = {1}
-  Kinds = {"single", "stream2", "fail", "rfail", "empty"}
+  Kinds = {"single", "stream2", "fail"}
   MaxCredit = 0
   MaxTick = 0
   NP = 1
@@ -13,4 +13,5 @@ CONSTANTS
   MaxAbort = 0
 SPECIFICATION SpecDg
 INVARIANT DgramEachOnce
+INVARIANT DgramSize
 CHECK_DEADLOCK FALSE
